@@ -239,6 +239,10 @@ func (w *World) boot(first bool) error {
 		} else {
 			isNew, err := srv.LoadUser(w.ctx, u.Conn, u.ID, u.Pass)
 			if err != nil {
+				// the start failed: end what was started, so that the next boot begins afresh
+				_ = srv.Close(w.ctx)
+				w.cancel()
+				w.Quiesce()
 				return fmt.Errorf("LoadUser: %w", err)
 			}
 			if isNew {
